@@ -373,6 +373,11 @@ def inline_closure_calls(F, body, bodies=None, depth=0, direct=True, changed=())
         cb = _closure_body(F, bodies, d)
         if cb is None or cb.get('argc', 1) != 2 or len(cb['blocks']) > 24 or d == body['path']:
             continue
+        # only closures that carry values on (re-pack a tuple, convert a number): a predicate or a constructor call keeps the
+        # adaptor form, which the rules read as an expression
+        rty = str((cb.get('locals') or [{}])[0].get('ty') or '')
+        if not (rty.startswith('(') or rty in ('usize', 'u64', 'u32', 'u16', 'u8', 'i64', 'i32')):
+            continue
         o[1]['expanded'] = True
         todo.append((i, d, cb, ('adaptor', t['f']['fn']), o[1]))
     if not todo:
